@@ -49,15 +49,24 @@ Definition sync (ents : list ent) (running : rmap) (unknown : bool) (qupd : Z) (
     (flat_map (sync_ent running unknown qupd) ents ++
      map AKill (filter (fun u => negb (memN u (map e_uuid ents))) (map fst running))).
 
-(* requeue() re-checks the queue when its goroutine runs (since /repo commit dbd540e, finding F21): the
-   Unlock call is made only if queue.Get(uuid) still shows the container Locked.  [now] = what Get returns
-   at that moment (absent = not in the queue). *)
-Fixpoint nlook (u : N) (now : list (N * cstate)) : option cstate :=
+(* requeue() re-checks, when its goroutine runs, that the container is still Locked (/repo dbd540e) and that
+   the reason still holds (/repo c30ecc5): its crunch-run has exited, or it is not running and has no
+   priority -- finding F21.  [now] = what queue.Get answers at that moment (state, priority; absent = not in
+   the queue), [run_now] = pool.Running() at that moment. *)
+Fixpoint nlook (u : N) (now : list (N * (cstate * Z))) : option (cstate * Z) :=
   match now with [] => None | (k, v) :: r => if N.eqb k u then Some v else nlook u r end.
-Definition still_locked (now : list (N * cstate)) (u : N) : bool :=
-  match nlook u now with Some Locked => true | _ => false end.
-Definition sync_unlocks (acts : list act) (now : list (N * cstate)) : list N :=
-  filter (still_locked now) (flat_map (fun a => match a with ARequeue u => [u] | _ => [] end) acts).
+Definition still_locked (now : list (N * (cstate * Z))) (u : N) : bool :=
+  match nlook u now with Some (Locked, _) => true | _ => false end.
+Definition reason_holds (now : list (N * (cstate * Z))) (run_now : rmap) (u : N) : bool :=
+  match rlook u run_now with
+  | Some t => negb (t =? 0)                                               (* crunch-run exited *)
+  | None => match nlook u now with Some (_, p) => p <=? 0 | None => false end   (* not running, priority 0 *)
+  end.
+Definition requeues (acts : list act) : list N := flat_map (fun a => match a with ARequeue u => [u] | _ => [] end) acts.
+Definition sync_unlocks (acts : list act) (now : list (N * (cstate * Z))) (run_now : rmap) : list N :=
+  filter (fun u => still_locked now u && reason_holds now run_now u) (requeues acts).
+(* the code before those two commits unlocked every requeue decision (regression witness only) *)
+Definition sync_unlocks_old (acts : list act) : list N := requeues acts.
 
 (* fixStaleLocks: the uuids it would unlock = Locked entries without a process *)
 Definition stale_locks (ents : list ent) (running : rmap) : list N :=
